@@ -22,6 +22,8 @@ def run(ctx):
     common.trace_layer(ctx, "parser-trace", "Trace_Parser.tla", "Trace_Parser.cfg", "parserfault", "parser-trace-rejected",
                        {"files": 200 if q else 4000, "bad": 30, "faults": 1}, "parser/parser.go",
                        selftests=[("ioerr-turned-into-success", io_to_nil)])
+    if ctx.tier == "thorough":
+        vlib.vacuity_check(ctx, "MC_Parser.tla", "MC_Parser_fault_quick.cfg", expect_zero=('SilentTruncate',))
     return vlib.finish(
         ctx, "fault_enumeration",
         rule="Parser.tla with a failing reader: every file of <= 3 abstract lines x the read failing before or inside every line (a "
